@@ -921,7 +921,8 @@ func getSourceFromFile(file string, reader *sourceReader, fns graph.Nodes, start
 		nodeEnd := lineno + margin
 		if nodeStart < start {
 			start = nodeStart
-		} else if nodeEnd > end {
+		}
+		if nodeEnd > end {
 			end = nodeEnd
 		}
 		lineNodes[lineno] = append(lineNodes[lineno], n)
